@@ -37,3 +37,18 @@ package route
 //@   ensures result1 == nil ==> len(hops) > 0 && result0 != nil && result0.Hops == hops && result0.TotalAmount == amtToSend &&
 //@           result0.TotalTimeLock == timeLock
 //@   ensures len(hops) > 0 ==> result1 == nil
+//@
+//@ // ---- onion size accounting: every record is counted with its type, length prefix and value, the payload
+//@ // ---- with its own length prefix and the HMAC
+//@ func (h *Hop) PayloadSize$1
+//@   props C19
+//@   site call VarIntSize nth 0: assert arg(0) == tlvType
+//@   site call VarIntSize nth 1: assert arg(0) == length
+//@
+//@ func (h *Hop) PayloadSize
+//@   props C19
+//@   loop * havoc
+//@   site call VarIntSize nth 2: assert arg(0) == *addr(payloadSize)
+//@   site call SizeTUint64 nth 0: assert arg(0) == h.AmtToForward
+//@   site call SizeTUint64 nth 1: assert arg(0) == h.OutgoingTimeLock
+//@   ensures old(h.LegacyPayload) ==> result == 65
